@@ -434,7 +434,10 @@ def probe_supports(wd):
 
 def crosscheck_behaviour(wd, probe):
     """informational: does the gate's acceptance of DiplomatOption / callback parameters agree with the probed flags?"""
-    shapes = {"option": "pub fn zq7_x_0001(x: DiplomatOption<u8>) {}", "callbacks": "pub fn zq7_x_0001(f: impl Fn(u8) -> u8) {}"}
+    shapes = {"option": "pub fn zq7_x_0001(x: DiplomatOption<u8>) {}", "callbacks": "pub fn zq7_x_0001(f: impl Fn(u8) -> u8) {}",
+              # a getter without self is only accepted where static accessors are supported; 'static slices likewise
+              "static_accessors": "#[diplomat::attr(*, getter)] pub fn zq7_x_0001() -> u8 { 0 }",
+              "static_slices": "pub fn zq7_x_0001(x: &'static str) {}"}
     jobs = [(b, k) for b in BACKENDS for k in shapes]
 
     def one(j):
@@ -732,7 +735,10 @@ def run(tier):
     xc = crosscheck_behaviour(wd, probe)
     for x in xc:
         if not x["agrees"]:
-            rep.notes.append("crosscheck: supports=%s probed %s in %s but the gate answers %s" % (x["flag"], x["probed"], x["backend"], x["gate"]))
+            # `supports = X` must be true exactly where the backend really supports X: the lowering gate is the backend's own behaviour
+            rep.violation("C13|supports = %s|backend=%s|condition-disagrees-with-behaviour" % (x["flag"], x["backend"]), x,
+                          "`supports = %s` evaluates to %s in backend %s, but the backend %s a construct that needs that feature (%s)" % (
+                              x["flag"], x["probed"], x["backend"], "accepts" if x["gate"] != "lowering-error" else "rejects", x["gate"]))
     timing["probe"] = round(time.time() - t0, 1)
 
     # ---- packed batches
